@@ -209,13 +209,10 @@ class C20(core.Check):
     extract_v = "Extract/C20X.v"
     # kernel primitives (machine integers / binary64) used ONLY by the theorem that cross-checks the exact rational
     # float model against the kernel's primitive floats on a grid; Print Assumptions lists primitives under "Axioms:"
-    allowed_axioms = {"PrimFloat.float", "float", "int", "PrimFloat.div", "PrimFloat.mul", "PrimFloat.of_uint63", "of_uint63",
-                      "PrimFloat.ltb", "PrimFloat.leb", "PrimFloat.eqb", "PrimFloat.frshiftexp", "frshiftexp",
-                      "PrimFloat.normfr_mantissa", "normfr_mantissa", "PrimFloat.opp", "PrimFloat.abs", "PrimFloat.sub",
-                      "PrimFloat.add", "PrimFloat.classify", "sub", "add", "mul", "lsl", "lsr", "lor", "land", "lxor",
-                      "eqb", "ltb", "leb", "Uint63.eqb", "Uint63.ltb", "Uint63.leb", "div", "mod", "Uint63.sub",
-                      "Uint63.add", "Uint63.mul", "Uint63.lsl", "Uint63.lsr", "Uint63.lor", "Uint63.land", "Uint63.div",
-                      "Uint63.mod", "Uint63.int", "addmuldiv", "compare", "Uint63.compare", "PrimFloat.compare"}
+    allowed_axioms = {"PrimInt63.int", "PrimInt63.sub", "PrimInt63.lsr", "PrimInt63.lsl", "PrimInt63.lor", "PrimInt63.land",
+                      "PrimInt63.eqb", "PrimFloat.float", "PrimFloat.opp", "PrimFloat.of_uint63", "PrimFloat.normfr_mantissa",
+                      "PrimFloat.mul", "PrimFloat.div", "PrimFloat.ltb", "PrimFloat.eqb", "PrimFloat.abs",
+                      "PrimFloat.frshiftexp"}
     design_ref = "DESIGN.md section 5, C20 (+ section 4 on floats)"
     technique = ("Coq theorems about an executable model of Scrollable/ScrollBar whose position arithmetic (_adjust_trim_top) is "
                  "re-translated from scrollable.py on every run; binary64 thumb arithmetic modelled as exact rationals with a proved "
@@ -267,6 +264,8 @@ class C20(core.Check):
         super().__init__()
         self._memo = (None, None)
         self._keep = None
+        self._in_main = False
+        self._sig_seen = {}
 
     # ------------------------------------------------------------------ implementation
     def run_impl(self, case):
@@ -613,7 +612,26 @@ class C20(core.Check):
             return None
         return len(mm.group(1)), len(mm.group(2)), len(mm.group(3))
 
+    SIG_CAP = 8
+
     def oracle(self, case, res):
+        """core keeps at most 200 oracle messages per run: so that one frequent message class (e.g. a recorded known
+        finding) cannot crowd out a different, new one, the main loop passes on at most SIG_CAP messages per signature
+        (every message still counts in the evidence distribution).  Shrinking and --replay are not capped."""
+        msgs = self.judge(case, res)
+        if not self._in_main:
+            return msgs
+        self._in_main = False
+        out = []
+        for m in msgs:
+            sig = self.signature(case, m)
+            n = self._sig_seen.get(sig, 0) + 1
+            self._sig_seen[sig] = n
+            if n <= self.SIG_CAP:
+                out.append(m)
+        return out
+
+    def judge(self, case, res):
         if case.get("kind") == "thumb":
             return self.oracle_thumb(case, res)
         if case.get("kind") == "listbox":
@@ -776,8 +794,13 @@ class C20(core.Check):
         return re.sub(r"-?\d+", "N", re.sub(r"\[.*?\]|'.*?'", "_", msg))[:120]
 
     def distribution(self, case, res, dist):
+        self._in_main = True        # core.run's main loop calls distribution() right before oracle()
+
         def inc(k):
             dist[k] = dist.get(k, 0) + 1
+        for sig, n in self._sig_seen.items():
+            if n > self.SIG_CAP:
+                dist["oracle-messages-over-cap:" + sig[:60]] = n - self.SIG_CAP
         kind = case.get("kind") or case["child"]["kind"]
         inc("child:" + kind)
         if kind in ("thumb", "listbox"):
